@@ -33,18 +33,18 @@ Section Spec.
   Definition pval (g : gval) : json :=
     match g with
     | GBool b => JBool b
-    | GI8 z | GI16 z | GI32 z | GI64 z => JNum (Some z) None None
-    | GU8 n | GU16 n | GU32 n | GU64 n | GErr n => JNum (Some (Z.of_N n)) None None
-    | GF32 b => JNum None (Some b) None
-    | GF64 b => JNum None None (Some b)
+    | GI8 z | GI16 z | GI32 z | GI64 z => JNum (Some z) true None None
+    | GU8 n | GU16 n | GU32 n | GU64 n | GErr n => JNum (Some (Z.of_N n)) true None None
+    | GF32 b => JNum None false (Some b) None
+    | GF64 b => JNum None false None (Some b)
     | GStr s => JStr s None
-    | GBytes s => JArr (map (fun b => JNum (Some (Z.of_N b)) None None) s)
+    | GBytes s => JArr (map (fun b => JNum (Some (Z.of_N b)) true None None) s)
     | GTime s ns => JStr [] (Some (s, ns))
     | _ => JNull
     end.
 
   Definition ptag (tag : N) (tn : option str) : json :=
-    match tn with Some s => JStr s None | None => JNum (Some (Z.of_N tag)) None None end.
+    match tn with Some s => JStr s None | None => JNum (Some (Z.of_N tag)) true None None end.
 
   Fixpoint print (t : rtree) : json :=
     match t with
@@ -85,7 +85,7 @@ Section Spec.
   Lemma in_u_ok (bits : Z) (n : N) : (Z.of_N n < 2 ^ bits)%Z -> in_u bits (Z.of_N n) = true.
   Proof. intro H. unfold in_u. apply andb_true_iff. split; [apply Z.leb_le; lia|apply Z.ltb_lt; exact H]. Qed.
 
-  Lemma conv_bytes_map s : bytes_ok s -> conv_bytes (map (fun b => JNum (Some (Z.of_N b)) None None) s) = Some s.
+  Lemma conv_bytes_map s : bytes_ok s -> conv_bytes (map (fun b => JNum (Some (Z.of_N b)) true None None) s) = Some s.
   Proof.
     induction 1 as [|b r Hb _ IH]; [reflexivity|]. cbn [map conv_bytes].
     rewrite in_u_ok by (change (2 ^ 8)%Z with 256%Z; lia). rewrite IH. cbn. rewrite N2Z.id. reflexivity.
@@ -183,3 +183,25 @@ Section Spec.
 End Spec.
 
 Print Assumptions C12_notations.
+
+(* exactness of the integer conversions, independent of the vocabulary *)
+Definition int_of (v : gval) : option Z :=
+  match v with
+  | GI8 z | GI16 z | GI32 z | GI64 z => Some z
+  | GU8 n | GU16 n | GU32 n | GU64 n | GErr n => Some (Z.of_N n)
+  | _ => None
+  end.
+Lemma conv_scalar_int_exact dt z p f g v : conv_scalar dt (JNum (Some z) p f g) = Some v ->
+  In dt [2; 3; 4; 5; 6; 7; 8; 9; 12; 255] -> int_of v = Some z.
+Proof.
+  intros H Hd. cbn [In] in Hd.
+  repeat (destruct Hd as [<-|Hd]; [unfold conv_scalar in H; cbn [N.eqb Pos.eqb] in H; unfold conv_s, conv_u in H;
+    match type of H with (if ?c then _ else _) = _ => destruct c eqn:Ec; [|discriminate] end;
+    injection H as <-; cbn [int_of]; unfold in_u, in_sb in Ec; apply andb_true_iff in Ec as [E1 _]; apply Z.leb_le in E1;
+    rewrite ?Z2N.id by lia; reflexivity|]).
+  contradiction.
+Qed.
+Lemma conv_scalar_non_integral dt p f g : In dt [2; 3; 4; 5; 6; 7; 8; 9; 12; 255] -> conv_scalar dt (JNum None p f g) = None.
+Proof.
+  intro Hd. cbn [In] in Hd. repeat (destruct Hd as [<-|Hd]; [reflexivity|]). contradiction.
+Qed.
